@@ -354,6 +354,13 @@ func c20CurrySeq(e *c20Env) {
 
 // ---- patterns
 
+type c20NamedStr string
+type c20NamedInt int
+type c20NamedBytes []byte
+type c20StringerABC struct{}
+
+func (c20StringerABC) String() string { return "abc" }
+
 type c20S struct{ A int }
 type c20T struct{ B string }
 
@@ -422,11 +429,11 @@ func (p c20Pat) accepts(v any, objs []any, isComp bool) bool {
 	case "Equal":
 		return p.eq == v
 	case "Regex":
-		s, ok := v.(string)
-		if !ok {
+		// strings of every string-kinded type (also named ones), nothing else (not []byte, not Stringers)
+		if c20IsNil(v) || reflect.TypeOf(v).Kind() != reflect.String {
 			return false
 		}
-		m, err := regexp.MatchString(p.re, s)
+		m, err := regexp.MatchString(p.re, reflect.ValueOf(v).String())
 		return err == nil && m
 	case "Sum":
 		if isComp {
@@ -501,6 +508,13 @@ func c20Patterns(e *c20Env) {
 	add("[]int(nil)", []int(nil))
 	add("map", map[string]int{"a": 1})
 	add("[2]int", [2]int{1, 2})
+	add("named string abc", c20NamedStr("abc"))
+	add("named string 123", c20NamedStr("123"))
+	add("named int 5", c20NamedInt(5))
+	add(`[]byte("abc")`, []byte("abc"))
+	add(`[]byte("123")`, []byte("123"))
+	add("named []byte", c20NamedBytes("a1c"))
+	add("Stringer printing abc", c20StringerABC{})
 	add("map(nil)", map[string]int(nil))
 	add("func(nil)", (func())(nil))
 	add("func", func() {})
@@ -663,6 +677,21 @@ func c20Patterns(e *c20Env) {
 			})
 		}
 	}
+	// several Equal patterns holding the SAME value (and equal values of different types): list order decides
+	e.run("InCaseOfEqual(duplicates)", "first of several equal-valued patterns", true, func() string {
+		tag := func(t string) func(interface{}) interface{} { return func(interface{}) interface{} { return t } }
+		pats := []fpgo.Pattern{fpgo.InCaseOfEqual(7, tag("never")), fpgo.InCaseOfEqual(5, tag("first")), fpgo.InCaseOfKind(reflect.String, tag("kind")), fpgo.InCaseOfEqual(5, tag("second")),
+			fpgo.InCaseOfEqual(int64(5), tag("int64")), fpgo.InCaseOfEqual(5, tag("third")), fpgo.Otherwise(tag("otherwise"))}
+		for probe, want := range map[interface{}]string{5: "first", int64(5): "int64", 7: "never", 6: "otherwise", "x": "kind"} {
+			if got := fpgo.Either(probe, pats...); got != want {
+				return fmt.Sprintf("Either(%#v) over [Equal 7, Equal 5 (first), Kind String, Equal 5 (second), Equal int64(5), Equal 5 (third), Otherwise] chose %v, want %v", probe, got, want)
+			}
+			if got := fpgo.DefPattern(pats...).MatchFor(probe); got != want {
+				return fmt.Sprintf("MatchFor(%#v) chose %v, want %v", probe, got, want)
+			}
+		}
+		return ""
+	})
 	// Equal patterns test Go equality (==): an Equal pattern holding pointer p accepts p itself, not another pointer
 	// with an equal pointee (probes that survive MatchFor's dereferencing of pointers to structs: *int, *string, **T,
 	// structs/arrays with pointer fields)
@@ -991,7 +1020,7 @@ func init() {
 			return core.Meta{
 				Level: "exploration",
 				Rule: "Compose/Pipe: all 5460 function lists of length 1..6 over 4 distinguishable non-commuting functions x 3 argument tuples, output compared with the fold, Compose(fs)=Pipe(reverse fs), every regrouping; adapters with recording functions; Trampoline with scripted done/error at step 1..12; CurryDef sequentially (1..6 calls x MarkDone position) and concurrently (2..8 goroutines, unique chunks, chain oracle; repeated in the -race build); " +
-					"patterns: every permutation of every subset of the five pattern kinds (326 lists) x 6 parameterisations x ~40 probe values of every kind through MatchFor/Either against the harness' own acceptance model (first accepting pattern's effect, applied to the value, panic iff none); effects that panic (directly or through a nested match that accepts nothing) at every position: the panic reaches the caller and no later pattern is applied; Equal patterns holding pointers / structs with pointer fields (identity, not deep equality); NewCompData and InCaseOfSumType against the declared type, for flat sums and for 7 nested groupings of the same five alternatives (nested first / middle / last, two levels, two nested, singletons); CurryDef whose function reads its own Result()/IsDone() while invoked (1..16 goroutines, termination by the stuck detector). distinct_nontrivial = enumerated cases (distinct by construction) + distinct concurrent scenarios",
+					"patterns: every permutation of every subset of the five pattern kinds (326 lists) x 6 parameterisations x ~40 probe values of every kind through MatchFor/Either against the harness' own acceptance model (first accepting pattern's effect, applied to the value, panic iff none); effects that panic (directly or through a nested match that accepts nothing) at every position: the panic reaches the caller and no later pattern is applied; Equal patterns holding pointers / structs with pointer fields (identity, not deep equality); several Equal patterns with the same value (list order decides); probes of named string / int / []byte types, []byte and Stringer values against Regex patterns; NewCompData and InCaseOfSumType against the declared type, for flat sums and for 7 nested groupings of the same five alternatives (nested first / middle / last, two levels, two nested, singletons); CurryDef whose function reads its own Result()/IsDone() while invoked (1..16 goroutines, termination by the stuck detector). distinct_nontrivial = enumerated cases (distinct by construction) + distinct concurrent scenarios",
 				Assumptions: []string{"MatchFor replaces a non-nil pointer-to-struct probe by its pointee before matching and applying (pinned, DESIGN.md C20)",
 					"nil values incl. typed nil pointers never match a Kind pattern; a CompData value is matched through its objects only",
 					"Equal patterns hold comparable values", "Calls concurrent with MarkDone may or may not be counted; Calls begun after MarkDone returned must not invoke fn"},
